@@ -153,6 +153,23 @@ pub fn build(tier: Tier) -> Check<'static> {
         }));
     }
     {
+        // long directive-free texts: many origin segments (the origin map is a B-tree whose lookup
+        // behaviour depends on the number and sizes of the segments), every byte probed
+        let pieces: [&'static str; 8] = ["ab ", "\"s\"", " /* c */ ", "x;\n", "// d\n", "\\esc ", "1 + 2\t", "é "];
+        let maxk = tier.pick(40usize, 120usize);
+        let n = (maxk as u64) * 8 * 8;
+        c.parts.push(Part::new("long-texts", n, "texts of k = 1..40 (thorough: 120) pieces cycling through 8 lexical pieces from every start with every stride", move |i, acc| {
+            let k = (i / 64) as usize + 1;
+            let start = ((i / 8) % 8) as usize;
+            let stride = (i % 8) as usize + 1;
+            let mut s = String::new();
+            for j in 0..k {
+                s.push_str(pieces[(start + j * stride) % 8]);
+            }
+            identity(acc, &s, "long text");
+        }));
+    }
+    {
         let sp = soup::sigma_t(0, tier.pick(3, 4));
         c.parts.push(Part::new("token-soup-outputs", sp.len(), "outputs of all token soups (with directives) fed back", move |i, acc| {
             identity(acc, &sp.get(i), "token soup");
